@@ -78,7 +78,7 @@ def run_shard(spec, acc):
         kwargs, nums, ids, kind, style, claim_mode = make_config(pool, rng, c + spec["i"])
         claims = {s: [hist.claim_name(rng.randrange((1 << 21) - 3), rng.choice([1851, 1855, 137, 229]), function=rng.choice([130, 140]),
                                       dev_class=rng.choice([25, 60])) for _ in range(2)] for s in sources}
-        events = hist.build_history(pool, rng, sources, n_events, claims)
+        events = hist.build_history(pool, rng, sources, n_events, claims, p_same_seq=0.35)
         try:
             filt = NMEA2000Decoder(**kwargs)
         except Exception as e:  # noqa: BLE001
